@@ -137,6 +137,8 @@ type verifScript struct {
 	wserved  []bool
 	finished bool
 	exited   chan struct{} // closed when the handler returns or panics
+	reuse    bool          // the handler writes every chunk from one scratch buffer it overwrites afterwards
+	scratch  [4]byte
 }
 
 func (s *verifScript) at(i int) {
@@ -162,7 +164,17 @@ func (s *verifScript) ServeHTTP(w http.ResponseWriter, r *http.Request) {
 			w.WriteHeader(op.code)
 		case verifOpWrite:
 			served := atomic.LoadInt32(&s.served) == 1
-			_, err := w.Write(op.data)
+			data := op.data
+			if s.reuse {
+				data = s.scratch[:copy(s.scratch[:], op.data)]
+			}
+			_, err := w.Write(data)
+			if s.reuse {
+				// http.ResponseWriter: Write must not retain p - the handler's buffer is its own again
+				for j := range data {
+					data[j] = '#'
+				}
+			}
 			s.werr = append(s.werr, err)
 			s.wserved = append(s.wserved, served)
 		case verifOpHeader:
@@ -254,6 +266,10 @@ func Verif_C02_timeout() {
 			nOps = i + 1
 			break
 		}
+	}
+	s.reuse = verifBool("handlerReusesBuffer")
+	if s.reuse {
+		verifReach("handler-reuses-buffer")
 	}
 	// deadline: never, or at position 0..nOps; DeadlineExceeded or Canceled
 	f := verifChoose("fireAt", nOps+2)
